@@ -25,13 +25,15 @@ type Ctx struct {
 	typeByID []types.Type
 	fresh    int
 	anon     map[string]string
+	canon    map[*types.Struct]string
+	heapVal  map[string]heapInfo
 	warnings map[string]bool
 	// names of trusted assumptions used (T-ids, extern contracts)
 	used map[string]bool
 }
 
 func newCtx() *Ctx {
-	c := &Ctx{declSet: map[string]bool{}, dtDone: map[string]bool{}, typeIDs: map[string]int{}, anon: map[string]string{}, warnings: map[string]bool{}, used: map[string]bool{}}
+	c := &Ctx{declSet: map[string]bool{}, dtDone: map[string]bool{}, typeIDs: map[string]int{}, anon: map[string]string{}, canon: map[*types.Struct]string{}, heapVal: map[string]heapInfo{}, warnings: map[string]bool{}, used: map[string]bool{}}
 	c.decl("(declare-datatypes ((Slice 0)) (((mkSlice (s_base Int) (s_len Int) (s_cap Int)))))")
 	c.decl("(declare-datatypes ((Iface 0)) (((mkIface (i_tag Int) (i_val Int)))))")
 	c.decl("(define-fun nilI () Iface (mkIface 0 0))")
@@ -117,6 +119,19 @@ func isErrorType(t types.Type) bool {
 // structName returns the SMT datatype name for a struct type.
 func (c *Ctx) structName(t types.Type) string {
 	if n, ok := t.(*types.Named); ok {
+		// named types sharing one underlying struct (type Href url.URL) share one datatype and
+		// one set of field heaps, so that pointer conversions between them stay sound
+		if u, ok := n.Underlying().(*types.Struct); ok {
+			if s, ok := c.canon[u]; ok {
+				return s
+			}
+			s := "S_" + mangle(n.String())
+			if o, ok := n.Origin().Underlying().(*types.Struct); ok && o == u {
+				// prefer the name of the defining type when we can find it
+			}
+			c.canon[u] = s
+			return s
+		}
 		return "S_" + mangle(n.String())
 	}
 	if a, ok := t.(*types.Alias); ok {
@@ -219,7 +234,7 @@ func (c *Ctx) zero(t types.Type) string {
 	case "Slice":
 		return "nilS"
 	case "Time":
-		return "zeroTime"
+		return "(mkTime (- 62135596800000000000) 0)"
 	}
 	if u, ok := t.Underlying().(*types.Struct); ok {
 		var a []string
@@ -232,9 +247,17 @@ func (c *Ctx) zero(t types.Type) string {
 }
 
 // heapField: name of the heap array for field i of struct type st (Int -> field sort).
+type heapInfo struct {
+	t    types.Type // type of the stored values
+	dims int        // 1: ref -> value, 2: ref -> index/key -> value
+	key  types.Type // key type for maps (nil: Int index)
+}
+
 func (c *Ctx) heapFieldName(st types.Type, i int) string {
 	u := st.Underlying().(*types.Struct)
-	return fmt.Sprintf("H_%s_%s", strings.TrimPrefix(c.structName(st), "S_"), u.Field(i).Name())
+	n := fmt.Sprintf("H_%s_%s", strings.TrimPrefix(c.structName(st), "S_"), u.Field(i).Name())
+	c.heapVal[n] = heapInfo{t: u.Field(i).Type(), dims: 1}
+	return n
 }
 
 func (c *Ctx) heapFieldSort(st types.Type, i int) string {
@@ -244,15 +267,19 @@ func (c *Ctx) heapFieldSort(st types.Type, i int) string {
 
 // heapCell: heap for pointers to non-struct values (*string, *int, *ETag ...)
 func (c *Ctx) heapCellName(t types.Type) string {
-	return "HC_" + mangle(t.String())
+	n := "HC_" + mangle(t.String())
+	c.heapVal[n] = heapInfo{t: t, dims: 1}
+	return n
 }
 
 // elemHeap: contents of slices with element type t: base -> index -> value
 func (c *Ctx) elemHeapName(t types.Type) string {
+	n := "E_" + mangle(t.String())
 	if _, ok := t.Underlying().(*types.Struct); ok && !isTimeType(t) {
-		return "E_" + strings.TrimPrefix(c.structName(t), "S_")
+		n = "E_" + strings.TrimPrefix(c.structName(t), "S_")
 	}
-	return "E_" + mangle(t.String())
+	c.heapVal[n] = heapInfo{t: t, dims: 2}
+	return n
 }
 
 func (c *Ctx) elemHeapSort(t types.Type) string {
@@ -262,6 +289,7 @@ func (c *Ctx) elemHeapSort(t types.Type) string {
 // map heaps: values and domain
 func (c *Ctx) mapHeapNames(m *types.Map) (val, dom string) {
 	n := mangle(m.Key().String()) + "__" + mangle(m.Elem().String())
+	c.heapVal["MV_"+n] = heapInfo{t: m.Elem(), dims: 2, key: m.Key()}
 	return "MV_" + n, "MD_" + n
 }
 
